@@ -109,12 +109,15 @@ def _worker(mod, tier, case_list, conn, cur):
             return
         if msg is None:
             return
-        lo, hi = msg
+        if msg[0] == "one":
+            items = [(msg[1], msg[2])]
+        else:
+            items = [(i, case_list[i]) for i in range(msg[0], msg[1])]
         out = []
-        for i in range(lo, hi):
+        for i, case in items:
             cur.value = i
             try:
-                r = mod.run_case(case_list[i])
+                r = mod.run_case(case)
             except BaseException:
                 r = {"harness_error": traceback.format_exc()}
             out.append((i, _compress(r, i)))
@@ -163,7 +166,10 @@ class Pool:
             while idle and queue:
                 w = idle.pop()
                 w["chunk"] = queue.popleft()
-                w["conn"].send(w["chunk"])
+                if w["chunk"][0] == "one":
+                    w["conn"].send(("one", w["chunk"][1], self.case_list[w["chunk"][1]]))
+                else:
+                    w["conn"].send(w["chunk"])
                 pending += 1
             if not pending:
                 break
@@ -176,11 +182,19 @@ class Pool:
                     # worker died while executing case cur
                     w["p"].join(timeout=5)
                     code = w["p"].exitcode
-                    lo, hi = w["chunk"]
+                    if w["chunk"][0] == "one":
+                        lo, hi = w["chunk"][1], w["chunk"][1] + 1
+                    else:
+                        lo, hi = w["chunk"]
                     c = w["cur"].value
                     if c < lo or c >= hi:
                         c = lo
-                    on_crash(c, code)
+                    # a crashed batch is split into smaller cases (down to a single execution) when the
+                    # check knows how, so that only the execution that crashes is lost and named
+                    subs = on_crash(c, code)
+                    for sub in subs or ():
+                        self.case_list.append(sub)
+                        queue.append(("one", len(self.case_list) - 1))
                     if c > lo:
                         queue.appendleft((lo, c))
                     if c + 1 < hi:
@@ -248,10 +262,19 @@ def confirm(mod, tier, case, sig):
         q = ctx.Queue()
         p = ctx.Process(target=_run_single, args=(mod.__name__, tier, case, q))
         p.start()
-        try:
-            res = q.get(timeout=600)
-        except Exception:
-            res = None
+        res = None
+        t_end = time.time() + 900
+        while time.time() < t_end:
+            try:
+                res = q.get(timeout=1.0)
+                break
+            except Exception:
+                if not p.is_alive():
+                    try:
+                        res = q.get(timeout=0.5)
+                    except Exception:
+                        res = None
+                    break
         p.join(timeout=30)
         if p.is_alive():
             p.kill()
@@ -359,6 +382,11 @@ def main(mod):
             add_viol(idx, v)
 
     def on_crash(idx, code):
+        if hasattr(mod, "split_case"):
+            subs = list(mod.split_case(case_list[idx]))
+            if subs:
+                agg["split"] = agg.get("split", 0) + 1
+                return subs
         agg["executed"] += 1
         agg["evaluations"] += 1
         label = mod.crash_label(case_list[idx]) if hasattr(mod, "crash_label") else str(case_list[idx].get("label", "case")) if isinstance(case_list[idx], dict) else "case"
